@@ -356,6 +356,26 @@ func (in *Interp) callFunction(p *Path, caller *Frame, fv FuncVal, args []Val, s
 	return r
 }
 
+// callBody interprets the SSA body of fn, bypassing any intrinsic registered for it.
+func (in *Interp) callBody(p *Path, caller *Frame, fn *ssa.Function, args []Val, site ssa.CallInstruction) Val {
+	if fn.Blocks == nil {
+		in.ensureBuilt(fn.Pkg)
+	}
+	if fn.Blocks == nil {
+		p.end("unsupported", "no body for "+fn.String())
+	}
+	p.depth++
+	fr := &Frame{fn: fn, env: make(map[ssa.Value]Val, 32), caller: caller}
+	for i, prm := range fn.Params {
+		if i < len(args) {
+			fr.env[prm] = args[i]
+		}
+	}
+	r := in.exec(p, fr)
+	p.depth--
+	return r
+}
+
 func (in *Interp) opaqueResult(sig *types.Signature) Val {
 	res := sig.Results()
 	mk := func(t types.Type) Val {
